@@ -51,6 +51,12 @@ Theorem hotpixel_spec_partial : forall px py qx qy,
   (hp_gen 0 0 px py qx qy = true <-> seg_meets_pixel 0 0 px py qx qy).
 Proof. exact PrecHot.hotpixel_spec_window. Qed.
 Print Assumptions hotpixel_spec_partial.
+(* the same for every pixel centre (translation invariance of the unit and of the class) *)
+Theorem hotpixel_spec_any_centre_partial : forall hx hy px py qx qy,
+  -9 <= px - hx <= 9 -> -9 <= py - hy <= 9 -> -9 <= qx - hx <= 9 -> -9 <= qy - hy <= 9 ->
+  (hp_gen hx hy px py qx qy = true <-> seg_meets_pixel hx hy px py qx qy).
+Proof. exact PrecHot.hotpixel_spec_any_centre. Qed.
+Print Assumptions hotpixel_spec_any_centre_partial.
 Theorem meets_fm_complete : forall hx hy px py qx qy, seg_meets_pixel hx hy px py qx qy -> meets_fm hx hy px py qx qy = true.
 Proof. exact PrecHot.meets_fm_complete. Qed.
 Theorem meets_wit_sound : forall hx hy px py qx qy, meets_wit hx hy px py qx qy = true -> seg_meets_pixel hx hy px py qx qy.
